@@ -23,17 +23,19 @@ var ctxProbeClosures = []string{
 }
 
 type ctxCase struct {
-	Src    string   `json:"src"`
-	Leaked []string `json:"leaked"`
-	Diags  []string `json:"diags"`
-	Err    string   `json:"err,omitempty"`
+	Src     string   `json:"src"`
+	Variant int      `json:"variant"` // 0 method context, 1 init context
+	Leaked  []string `json:"leaked"`
+	Diags   []string `json:"diags"`
+	Err     string   `json:"err,omitempty"`
 }
 
 func probeCtx(args []string) (any, error) {
 	var out []ctxCase
-	for _, src := range ctxProbeClosures {
-		leaked, diags, err := checker.VerifClosureContextDiff(src)
-		c := ctxCase{Src: src, Leaked: leaked, Diags: diags}
+	for i := 0; i < 2*len(ctxProbeClosures); i++ {
+		src, variant := ctxProbeClosures[i/2], i%2
+		leaked, diags, err := checker.VerifClosureContextDiff(src, variant)
+		c := ctxCase{Src: src, Variant: variant, Leaked: leaked, Diags: diags}
 		if c.Leaked == nil {
 			c.Leaked = []string{}
 		}
